@@ -512,9 +512,9 @@ _picker_cache = {}
 def picker_postcondition(prog):
     """pick_four_unique_nodes_quickly: every return is either the 4-tuple guarded by all six pairwise
     inequalities, or the result of the recursive call."""
-    key = id(prog)
-    if key in _picker_cache:
-        return _picker_cache[key]
+    cached = getattr(prog, '_picker_postcondition', None)
+    if cached is not None:
+        return cached
     from ..core.astutil import ParentMap
     f = prog.func('bct.utils.miscellaneous_utilities', 'pick_four_unique_nodes_quickly')
     pm = ParentMap(f.node)
@@ -540,7 +540,7 @@ def picker_postcondition(prog):
             else:
                 ok = False
     ok = ok and nret >= 1
-    _picker_cache[key] = ok
+    prog._picker_postcondition = ok
     return ok
 
 
